@@ -7,8 +7,10 @@ package vmm
 // active on return.
 
 import (
+	"encoding/binary"
 	"fmt"
 	"testing"
+	"unsafe"
 
 	"github.com/ProjectSerenity/firefly/kernel"
 	"github.com/ProjectSerenity/firefly/kernel/mm"
@@ -33,6 +35,7 @@ type c05Case struct {
 	Offset       uint64           `json:"offset"`
 	Sections     []c05Section     `json:"sections"`
 	Reservations []c05Reservation `json:"reservations"`
+	ViaMultiboot bool             `json:"viamultiboot,omitempty"` // deliver the sections through a real multiboot2 block
 	FailAt       int              `json:"failat,omitempty"`   // fail the k-th frame allocation of setupPDTForKernel
 	TempFail     bool             `json:"tempfail,omitempty"` // fail the temporary mapping of the new root
 }
@@ -73,9 +76,16 @@ func c05Run(c c05Case) *vlib.Failure {
 		}
 	}
 
-	visitElfSectionsFn = func(v multiboot.ElfSectionVisitor) {
-		for _, s := range c.Sections {
-			v(s.Name, multiboot.ElfSectionFlag(s.Flags), uintptr(s.Addr), s.Size)
+	if c.ViaMultiboot {
+		// the real decoder reads the ELF-sections tag of a multiboot2 information block
+		keep := c05InstallMultiboot(c.Sections)
+		defer func() { _ = keep }()
+		visitElfSectionsFn = multiboot.VisitElfSections
+	} else {
+		visitElfSectionsFn = func(v multiboot.ElfSectionVisitor) {
+			for _, s := range c.Sections {
+				v(s.Name, multiboot.ElfSectionFlag(s.Flags), uintptr(s.Addr), s.Size)
+			}
 		}
 	}
 	m.flushed, m.allocs, m.failAt, m.failErr = nil, 0, c.FailAt, nil
@@ -150,6 +160,56 @@ func c05Run(c c05Case) *vlib.Failure {
 	return nil
 }
 
+// c05InstallMultiboot encodes the sections as the ELF-symbols tag of a multiboot2 block
+// (64-byte section headers, names in a string table that is itself the last section) and
+// points the multiboot package at it. The returned slices keep the memory alive.
+func c05InstallMultiboot(secs []c05Section) [][]uint64 {
+	var strtab []byte
+	strtab = append(strtab, 0)
+	nameOff := make([]uint32, len(secs))
+	for i, s := range secs {
+		nameOff[i] = uint32(len(strtab))
+		strtab = append(strtab, s.Name...)
+		strtab = append(strtab, 0)
+	}
+	strName := uint32(len(strtab))
+	strtab = append(strtab, ".shstrtab"...)
+	strtab = append(strtab, 0)
+	strBack := make([]uint64, len(strtab)/8+2)
+	strBytes := unsafe.Slice((*byte)(unsafe.Pointer(&strBack[0])), len(strtab))
+	copy(strBytes, strtab)
+
+	n := len(secs) + 1
+	tagSize := 8 + 12 + 64*n
+	total := 8 + (tagSize+7)&^7 + 8
+	back := make([]uint64, total/8+2)
+	b := unsafe.Slice((*byte)(unsafe.Pointer(&back[0])), total)
+	le := binary.LittleEndian
+	le.PutUint32(b[0:], uint32(total))
+	le.PutUint32(b[8:], 9) // ELF symbols tag
+	le.PutUint32(b[12:], uint32(tagSize))
+	le.PutUint32(b[16:], uint32(n))
+	le.PutUint32(b[20:], 64)
+	le.PutUint32(b[24:], uint32(n-1)) // index of the string-table section
+	put := func(i int, name uint32, typ uint32, flags, addr, size uint64) {
+		o := 28 + 64*i
+		le.PutUint32(b[o:], name)
+		le.PutUint32(b[o+4:], typ)
+		le.PutUint64(b[o+8:], flags)
+		le.PutUint64(b[o+16:], addr)
+		le.PutUint64(b[o+32:], size)
+	}
+	for i, s := range secs {
+		put(i, nameOff[i], 1, uint64(s.Flags), s.Addr, s.Size)
+	}
+	put(n-1, strName, 3, 0, uint64(uintptr(unsafe.Pointer(&strBytes[0]))), uint64(len(strtab)))
+	end := 8 + (tagSize+7)&^7
+	le.PutUint32(b[end:], 0)
+	le.PutUint32(b[end+4:], 8)
+	multiboot.SetInfoPtr(uintptr(unsafe.Pointer(&b[0])))
+	return [][]uint64{back, strBack}
+}
+
 func c05Gen(t *rapid.T) c05Case {
 	var c c05Case
 	c.Offset = rapid.SampledFrom([]uint64{0xffff800000000000, 0xffff800000000000, 0xffffc00000000000, 1 << 30, 0x200000}).Draw(t, "offset")
@@ -188,6 +248,11 @@ func c05Gen(t *rapid.T) c05Case {
 			r.Frames = append(r.Frames, rapid.Uint64Range(1, 1<<36).Draw(t, "rframe"))
 		}
 		c.Reservations = append(c.Reservations, r)
+	}
+	// through the real multiboot decoder when the string table (host memory, low half) is
+	// certain to lie below the kernel range and therefore to be skipped
+	if c.Offset >= 0xffff800000000000 && rapid.IntRange(0, 2).Draw(t, "viamultiboot") == 0 {
+		c.ViaMultiboot = true
 	}
 	switch rapid.IntRange(0, 9).Draw(t, "inject") {
 	case 0:
@@ -235,6 +300,9 @@ func TestVerifC05(t *testing.T) {
 		}
 		if len(c.Reservations) > 0 {
 			add("has-reservations")
+		}
+		if c.ViaMultiboot {
+			add("sections-through-real-multiboot-block")
 		}
 		st.Case(c, len(perms) >= 2 && len(c.Reservations) >= 1, uniqSorted(labels)...)
 		if fail != nil && len(fail.Msg) > 13 && fail.Msg[:13] == "VERIF-HARNESS" {
